@@ -63,10 +63,10 @@ the result — whatever it is (it may be code that would be stuck or fail). -/
 theorem dead_branch_irrelevant (fns : List FnDef) (fuel : Nat) (c t e e' : IR) (s s1 : List Val) (vc : Val)
     (hc : evalIR fns fuel c s = some (vc, s1)) :
     (truthy vc = true → evalIR fns fuel (.ite c t e) s = evalIR fns fuel (.ite c t e') s) ∧
-    (truthy vc = false → evalIR fns fuel (.ite c t e) s = evalIR fns fuel (.ite c e' e) s → True) := by
+    (truthy vc = false → evalIR fns fuel (.ite c t e) s = evalIR fns fuel (.ite c e' e) s) := by
   constructor
   · intro ht; simp [evalIR, hc, ht]
-  · intro _ _; trivial
+  · intro ht; simp [evalIR, hc, ht]
 
 /-- … and the compiled program never enters the dead branch's code in a way that matters: the VM still
 halts with the value of the live branch. -/
